@@ -72,6 +72,10 @@ def wellformed(m, expect_names=None) -> list:
             ops = _ops(c.ast.root)
             if not any(o in ('SUM', 'AVG', 'LEN', 'FLOOR', 'CEIL') for o in ops) and got != want:
                 out.append('constraint %d: get_features() %r != names written %r' % (ci, got, want))
+            if all(o in ('NOT', 'AND', 'OR', 'XOR', 'IMPLIES', 'EQUIVALENCE', 'REQUIRES', 'EXCLUDES') for o in ops):
+                stray = [x for x in want if x not in names]
+                if stray:
+                    out.append('constraint %d names %r, which are not features of the model it belongs to' % (ci, stray))
             if expect_names is not None and not set(want) <= set(expect_names[ci] if isinstance(expect_names, list) and ci < len(expect_names) else want):
                 out.append('constraint %d: names %r, document wrote %r' % (ci, want, expect_names[ci]))
     return out
@@ -138,6 +142,15 @@ def wf_fide_ref(shape, cards, code) -> bool:
     return wf(c09.fide_read(doc))
 
 
+def wf_glencoe_ref(shape, cards, code) -> bool:
+    n = R.n_features(shape)
+    names = ['F%d' % i for i in range(n)]
+    trees = c09.GL_CTCS[code] if n >= 2 else []
+    d = c09.glencoe_emit(shape, cards, names, {'ids_differ': 1, 'reverse_children': 1}, trees)
+    rd = GlencoeReader('unused')
+    return wf(FeatureModel(rd._parse_tree(None, d['tree'], d['features']), rd._parse_constraints(d['constraints'], d['features'])))
+
+
 def wf_fama(shape, cards, oi) -> bool:
     n = R.n_features(shape)
     names = ['F%d' % i for i in range(n)]
@@ -184,6 +197,11 @@ def file_models(shape, cards, code):
             tr = [c09.c05_rename(t, names) for t in c07.CTCS[code % len(c07.CTCS)] if isinstance(t, tuple)]
             AFMWriter(path('a.afm'), afmio.make(shape, cards, names=names, attrs=at, trees=tr)).transform()
             out.append(('afm', AFMReader(path('a.afm')).transform()))
+        if c08.in_fragment_shape(shape) and cards in c09.glencoe_fragment_cards(shape):
+            import json as _json
+            with open(path('ref.gfm.json'), 'w', encoding='utf-8') as fh:
+                _json.dump(c09.glencoe_emit(shape, cards, ['F%d' % i for i in range(n)], {'ids_differ': 1}, c09.GL_CTCS[code % len(c09.GL_CTCS)] if n >= 2 else []), fh)
+            out.append(('glencoe-ref', GlencoeReader(path('ref.gfm.json')).transform()))
         names = ['F%d' % i for i in range(n)]
         ctcs = [('requires', n - 1, 0)] if n >= 2 else []
         c09.fama_emit(shape, cards, names, {'card_last': code % 2}, ctcs).write(path('f.xml'), encoding='UTF-8', xml_declaration=True)
@@ -310,6 +328,7 @@ def conditions(tier, seed):
         if c08.in_fragment_shape(shape):
             fc = c08.fragment_cards(shape)
             add('glencoe', 'P.wf_glencoe(SHAPE_%d, %s, %d)' % (si, cexpr, code), c08.fragment_pre(shape), [tuple(x for c in fc[0] for x in c)], 'Glencoe reader result is a well-formed tree (dict level)')
+            add('glencoeref', 'P.wf_glencoe_ref(SHAPE_%d, %s, %d)' % (si, cexpr, code % len(c09.GL_CTCS)), c08.fragment_pre(shape), [tuple(x for c in fc[0] for x in c)], 'Glencoe reader on a reference document whose ids differ from the names')
         if c07.in_fragment_shape(shape):
             fc = c07.fragment_cards(shape)
             v = [tuple(x for c in fc[0] for x in c)]
